@@ -69,9 +69,9 @@ theorem HIe_threadStep (kinds : List Kind) (links : List (Nat × List Tgt)) (hwf
               obtain ⟨nd', hst, hn1, key⟩ := HI_write_acc kinds links hwf aa g h n nd i inbox w q ops' hn hg0 hlne hw
               have hgl' : getL g.links (wkey n w) = getL links (wkey n w) := by rw [hgl]
               have hqU : Unlogged g.log q.id := by
-                rcases write_shape g.log n nd (aa n) g.next hjb i inbox (some w) q ops' hg0 hnl with ⟨e, _, _⟩ |
+                rcases write_shape g.log n nd (aa n) g.next hjb i inbox (some w) q ops' hg0 hnl with ⟨e, hXe⟩ |
                   ⟨_, _, _, _, _, _, hqU, _⟩
-                · cases e
+                · subst e; exact req_unlogged g.log n i _ (aa n) q.id hnl hXe (by simp [remFor, remOps])
                 · exact hqU
               have heq := gWrite_eqH kinds hwf.small hwf.kindsOK aa g (wkey n w) q.id q.pay (nih_of kinds links aa g h)
                 (by rw [hgl']; exact hlne) (by rw [hgl']; exact tok_of_mem5 kinds links hwf _) hqU.2.1
